@@ -400,8 +400,14 @@ def o_pair(op, args, st, outv):
     chk(op, 'Loewner %s first' % word, max(0.0, -min_eig(da)), tol, out)
     chk(op, 'Loewner %s second' % word, max(0.0, -min_eig(db)), tol, out)
     if op == 'intersect':
-        if not (min_eig(c) > 0):
-            out.append('intersect: result is not positive definite')
+        # the exact result dominates both arguments, so its smallest eigenvalue is >= max(lmin(A), lmin(B));
+        # strict positivity is required whenever the cond-scaled error bound is below that value
+        me = min_eig(c)
+        if tol < max(ia.lmin, ib.lmin):
+            if not (me > 0):
+                out.append('intersect: result is not positive definite')
+        else:
+            chk(op, 'positive semi-definite', max(0.0, -me), tol, out)
     else:
         # the dual bound is only claimed to be below both arguments; its small eigenvalues can be
         # lost to rounding amplified by cond(A), so positivity is required up to the same tolerance
